@@ -10,6 +10,8 @@ The family (all in plugin group ``schema``; never written to /repo):
     vq.xx  1.0.0  auxiliary                       (cannot be attached)
     vq.dd  1.0.0<xx1.0.0                          (attachable child of an auxiliary schema)
     vq.ff  1.0.0  2.0.0                           (the major bump *drops* a required field)
+    vq.gg  1.0.0<aa1.0.0  1.1.0<aa1.1.0
+    vq.hh  1.0.0<gg1.0.0                          (its parent is *not* the newest gg 1.x release)
 
 Major bumps add a *required* field, minor bumps an optional one, so that an object of an
 older major release is not parsable by the newer class (as semantic versioning allows).
@@ -40,8 +42,11 @@ FAMILY: List[Tuple[str, Ver, Optional[Ref], bool, List[str], List[str]]] = [
     ("vq.dd", (1, 0, 0), ("vq.xx", (1, 0, 0)), False, ["d"], []),
     ("vq.ff", (1, 0, 0), None, False, ["f", "g"], []),
     ("vq.ff", (2, 0, 0), None, False, ["f"], []),
+    ("vq.gg", (1, 0, 0), ("vq.aa", (1, 0, 0)), False, ["g1"], []),
+    ("vq.gg", (1, 1, 0), ("vq.aa", (1, 1, 0)), False, ["g1"], ["g2"]),
+    ("vq.hh", (1, 0, 0), ("vq.gg", (1, 0, 0)), False, ["h1"], []),
 ]
-NAMES = ["vq.aa", "vq.bb", "vq.cc", "vq.ee", "vq.xx", "vq.dd", "vq.ff"]
+NAMES = ["vq.aa", "vq.bb", "vq.cc", "vq.ee", "vq.xx", "vq.dd", "vq.ff", "vq.gg", "vq.hh"]
 INSTALLED = [("core.person", (0, 1, 0)), ("core.org", (0, 1, 0))]
 INSTALLED_KW = {"core.person": {"name": "Jane Doe"}, "core.org": {"name": "Org"}}
 PKG_NAME = "verif-c07-family"
